@@ -278,10 +278,18 @@ func c10download(ev *evid.Rec) func(rt *rapid.T) {
 		kids := genTree(rt, "t", 0, &budget, true)
 		script := rapid.SliceOfN(rapid.IntRange(0, 9), 60, 60).Draw(rt, "script")
 		offs := rapid.SliceOfN(rapid.IntRange(0, 1000), 60, 60).Draw(rt, "offsets")
+		own := rapid.IntRange(0, 3).Draw(rt, "ownroot") == 0
 		nta := 0
 		inWorld(rt, hlsim.Options{Agreement: "a", Accounts: []hlsim.AccountSpec{acct("admin", "Admin", "adminpw", allAccess)}}, func(rt *rapid.T, w *hlsim.World) {
-			must(os.MkdirAll(filepath.Join(w.FileRoot, "Tree"), 0o755))
-			writeTree(filepath.Join(w.FileRoot, "Tree"), kids)
+			froot := w.FileRoot
+			if own {
+				// the account has a file root of its own; the server-wide root has a folder of the same name with other content
+				froot = ownRoot(rt, w, acct("admin", "Admin", "adminpw", allAccess))
+				must(os.MkdirAll(filepath.Join(w.FileRoot, "Tree", "decoy folder"), 0o755))
+				must(os.WriteFile(filepath.Join(w.FileRoot, "Tree", "decoy.txt"), []byte("not this tree"), 0o644))
+			}
+			must(os.MkdirAll(filepath.Join(froot, "Tree"), 0o755))
+			writeTree(filepath.Join(froot, "Tree"), kids)
 			c := loginAs(rt, w, "10.0.0.1:1", "admin", "adminpw", "admin")
 			nta = downloadFolder(rt, w, c, "Tree", nil, kids, func(i, size int) (int, int) {
 				switch s := script[i%len(script)]; {
@@ -308,7 +316,7 @@ func c10download(ev *evid.Rec) func(rt *rapid.T) {
 			})
 		})
 		nd, f := hasNested(kids)
-		ev.Case(evid.Hash("dl", treeHash(kids), fmt.Sprint(script[:8])), nd && f && nta > 0, "download", fmt.Sprintf("entries:%d", min(len(flatten(nil, kids, false))/10*10, 100)))
+		ev.Case(evid.Hash("dl", treeHash(kids), fmt.Sprint(script[:8]), own), nd && f && nta > 0, "download", fmt.Sprintf("own-root:%v", own), fmt.Sprintf("entries:%d", min(len(flatten(nil, kids, false))/10*10, 100)))
 		if nd && f && nta > 0 && ev.WantSample() {
 			ev.Sample(map[string]any{"direction": "download", "tree": itemNames(flatten(nil, kids, false)), "non_default_actions": nta})
 		}
@@ -337,6 +345,7 @@ func c10upload(ev *evid.Rec) func(rt *rapid.T) {
 			}
 		}
 		target := rapid.SampledFrom([]string{"root", "Uploads"}).Draw(rt, "target")
+		own := rapid.IntRange(0, 3).Draw(rt, "ownroot") == 0
 		cutAt, wasCut := -1, false
 		if rapid.IntRange(0, 2).Draw(rt, "cutFirst") == 0 {
 			streamed := 0
@@ -347,9 +356,12 @@ func c10upload(ev *evid.Rec) func(rt *rapid.T) {
 		}
 		inWorld(rt, hlsim.Options{Agreement: "a", Accounts: []hlsim.AccountSpec{acct("admin", "Admin", "adminpw", allAccess)}}, func(rt *rapid.T, w *hlsim.World) {
 			base := w.FileRoot
+			if own {
+				base = ownRoot(rt, w, acct("admin", "Admin", "adminpw", allAccess))
+			}
 			var path []byte
 			if target == "Uploads" {
-				base = filepath.Join(w.FileRoot, "Uploads")
+				base = filepath.Join(base, "Uploads")
 				must(os.MkdirAll(base, 0o755))
 				path = p1("Uploads")
 			}
@@ -453,7 +465,7 @@ func c10upload(ev *evid.Rec) func(rt *rapid.T) {
 		if wasCut {
 			cl = "cut-then-again"
 		}
-		ev.Case(evid.Hash("ul", treeHash(kids), fmt.Sprint(seed), cutAt), nd && f && (len(seed) > 0 || wasCut), "upload", cl, fmt.Sprintf("entries:%d", min(len(all)/10*10, 100)), "target:"+target)
+		ev.Case(evid.Hash("ul", treeHash(kids), fmt.Sprint(seed), cutAt, own), nd && f && (len(seed) > 0 || wasCut), "upload", cl, fmt.Sprintf("own-root:%v", own), fmt.Sprintf("entries:%d", min(len(all)/10*10, 100)), "target:"+target)
 		if nd && f && len(seed) > 0 && ev.WantSample() {
 			ev.Sample(map[string]any{"direction": "upload+roundtrip", "tree": itemNames(all), "preseeded(-1=complete,n=partial bytes)": seed})
 		}
